@@ -15,8 +15,43 @@ ASSUMPTIONS = ["which bytes are don't-care is taken from the model's instrumente
 HOSTILE = [0x81, 0x8D, 0x8F, 0x90, 0x9D, 0xFF, 0x01, 0x41]
 
 
+SMALL_INTS = [1, 2, 3, 7, 12, 19, 20, 49, 255, 256, 65535, 65536, 2 ** 31 - 1, 2 ** 31, 2 ** 32 - 1]
+STYLES = (0, 1, 2, 3, 4)
+
+
+def dontcare_runs(mask):
+    runs, i, n = [], 0, len(mask)
+    while i < n:
+        if mask[i] == 0:
+            j = i
+            while j < n and mask[j] == 0:
+                j += 1
+            runs.append((i, j - i))
+            i = j
+        else:
+            i += 1
+    return runs
+
+
 def scramble(rng, data, mask, style):
+    """style 0: bytes cp1252 cannot decode; 1: random; 2: 0xFF fill; 3: every reserved word / pad holds a small
+    little-endian integer (a reader that 'uses' such a word as a count, flag, length or high word shows up), text
+    tails hold printable text; 4: exactly one don't-care byte is changed"""
     out = bytearray(data)
+    if style == 4:
+        idx = [i for i, m in enumerate(mask) if m == 0]
+        if idx:
+            out[rng.choice(idx)] = rng.choice([1, 2, 0x20, 0x41, 0x80, 0xFF])
+        return bytes(out)
+    if style == 3:
+        for start, ln in dontcare_runs(mask):
+            if ln % 4 == 0 and ln <= 32:
+                for k in range(0, ln, 4):
+                    out[start + k:start + k + 4] = rng.choice(SMALL_INTS).to_bytes(4, "little")
+            else:
+                fill = rng.choice([b" ", b"A", b"\x01", b"\t", b"ab "])
+                out[start:start + ln] = (fill * ln)[:ln]
+        return bytes(out)
     for i, m in enumerate(mask):
         if m == 0:
             if style == 0:
@@ -40,7 +75,7 @@ def check_block(ctx, kind, fmt, data, mask, orig_abs, canonical, source, rep):
         ctx.diff("mask.length", f"{kind}/{source}: model consumed {len(mask)} of {len(data)} bytes", rep)
         return
     ndc = sum(1 for m in mask if m == 0)
-    for style in (0, 1, 2):
+    for style in STYLES:
         s = scramble(ctx.rng, data, mask, style)
         try:
             blk, tell = real_decode(kind, fmt, s)
